@@ -141,59 +141,76 @@ Print Assumptions C10_prefix_space_refuted.
 (* 8. The lossy-reader clause: the lossy reader accepts the same fields and yields the same
    structure.  The lossy reader is the model of the cone of C14 (coq/model/RelLossy.v:
    lossy::Relations::from_str with str::split / trim, a lexer run per relation, the hand-written
-   token reader, and C14's model of debversion); [lossy_model] shows its value in the accessors'
-   type RelAcc.relc (name, archqual, version as (operator, Display text), architectures as Strings
-   with "!" for a negated one, profiles) -- proofs/RelGrammarLossyP.v.
-   Domain: well-formed fields without substitution variables (wf_rfield false) in RelGrammar.lossy_dom:
-   no LF in the whitespace INSIDE a relation (LF is free in front of the field, after "," and "|"
-   and after a relation), nothing between ":" and the architecture qualifier.  Each restriction is
-   necessary (C10_lossy_dom_needed). *)
+   token reader, and C14's model of debversion) AS PATCHED by
+   proposed_fixes/C14-lossy-newlines.patch (a line break is white space wherever a blank is; white
+   space is skipped after the ":" of a qualifier); [lossy_model] shows its value in the accessors'
+   type RelAcc.relc -- proofs/RelGrammarLossyP.v.
+   Domain: EVERY well-formed field without substitution variables (wf_rfield false), every
+   whitespace slot any run of SP / TAB / LF.  Substitution variables are the only exclusion
+   (C10_lossy_substvar_needed); the reader before the patch rejected twelve more layouts
+   (C10_lossy_old_newline_refuted). *)
 Definition C10_lossy_full (lossy_relations_from_str : str -> res (list (list relc))) : Prop :=
-  forall f : rfield, wf_rfield false f = true -> lossy_dom f = true ->
+  forall f : rfield, wf_rfield false f = true ->
   exists es, lossy_relations_from_str (rrender f) = Ok es /\ map (map relc_view) es = fst (rcontent f).
 Definition C10_lossy_RelLossy : Prop := C10_lossy_full lossy_model.
 
 (* the exact value: the content in the accessors' type; read back as content it IS the content *)
-Theorem C10_lossy : forall f : rfield, wf_rfield false f = true -> lossy_dom f = true ->
+Theorem C10_lossy : forall f : rfield, wf_rfield false f = true ->
   lossy_model (rrender f) = Ok (fst (rcontent_acc f)) /\
   map (map relc_view) (fst (rcontent_acc f)) = fst (rcontent f).
 Proof. exact C10_lossy_all. Qed.
-Check C10_lossy : forall f : rfield, wf_rfield false f = true -> lossy_dom f = true ->
+Check C10_lossy : forall f : rfield, wf_rfield false f = true ->
   lossy_model (rrender f) = Ok (fst (rcontent_acc f)) /\
   map (map relc_view) (fst (rcontent_acc f)) = fst (rcontent f).
 Print Assumptions C10_lossy.
 
 Theorem C10_lossy_full_holds : C10_lossy_RelLossy.
-Proof. intros f Hwf Hdom. destruct (C10_lossy_all f Hwf Hdom) as [A B]. exists (fst (rcontent_acc f)). split; assumption. Qed.
+Proof. intros f Hwf. destruct (C10_lossy_all f Hwf) as [A B]. exists (fst (rcontent_acc f)). split; assumption. Qed.
 Check C10_lossy_full_holds : C10_lossy_full lossy_model.
 Print Assumptions C10_lossy_full_holds.
 
 (* the same structure as the lossless accessors report for the same text *)
-Theorem C10_lossy_agrees_with_lossless : forall f : rfield, wf_rfield false f = true -> lossy_dom f = true ->
+Theorem C10_lossy_agrees_with_lossless : forall f : rfield, wf_rfield false f = true ->
   exists a, relations_from_str (rrender f) = Ok (rtree_of f) /\ racc (rtree_of f) = Ok a /\
             lossy_model (rrender f) = Ok (fst a).
 Proof.
-  intros f Hwf Hdom. exists (rcontent_acc f). split; [apply C10_from_str, Hwf|].
-  split; [apply (C10_lossless false f Hwf)|apply (C10_lossy_all f Hwf Hdom)].
+  intros f Hwf. exists (rcontent_acc f). split; [apply C10_from_str, Hwf|].
+  split; [apply (C10_lossless false f Hwf)|apply (C10_lossy_all f Hwf)].
 Qed.
-Check C10_lossy_agrees_with_lossless : forall f : rfield, wf_rfield false f = true -> lossy_dom f = true ->
+Check C10_lossy_agrees_with_lossless : forall f : rfield, wf_rfield false f = true ->
   exists a, relations_from_str (rrender f) = Ok (rtree_of f) /\ racc (rtree_of f) = Ok a /\
             lossy_model (rrender f) = Ok (fst a).
 Print Assumptions C10_lossy_agrees_with_lossless.
 
 (* the value of the lossy model itself (lossy::Relation values with C14's dversion) *)
-Theorem C10_lossy_value : forall f : rfield, wf_rfield false f = true -> lossy_dom f = true ->
+Theorem C10_lossy_value : forall f : rfield, wf_rfield false f = true ->
   RelLossy.relations_from_str RelLossy.dv_parse (rrender f) = Ok (lossy_field f).
 Proof. exact lossy_rrender. Qed.
-Check C10_lossy_value : forall f : rfield, wf_rfield false f = true -> lossy_dom f = true ->
+Check C10_lossy_value : forall f : rfield, wf_rfield false f = true ->
   RelLossy.relations_from_str RelLossy.dv_parse (rrender f) = Ok (lossy_field f).
 Print Assumptions C10_lossy_value.
 
-(* every restriction of lossy_dom is necessary: one well-formed field per whitespace slot inside
-   a relation with an LF in it (and one with a space after the ":" of a qualifier); the lossless
-   reader reads each of them (C10_lossless), the lossy reader rejects each:
+(* the only exclusion: a field with a substitution variable ("${a}", well-formed when they are
+   allowed) is not in the lossy clause's domain, and the lossy reader rejects it *)
+Theorem C10_lossy_substvar_needed :
+  let f := mk_rfield [] (ISubst [97%N] [] []) [] in
+  wf_rfield true f = true /\ wf_rfield false f = false /\ lossy_dom f = false /\
+  rrender f = [36; 123; 97; 125]%N /\ exists e, lossy_model (rrender f) = Err e.
+Proof. cbv zeta. repeat split; try reflexivity. eexists. vm_compute. reflexivity. Qed.
+Check C10_lossy_substvar_needed :
+  let f := mk_rfield [] (ISubst [97%N] [] []) [] in
+  wf_rfield true f = true /\ wf_rfield false f = false /\ lossy_dom f = false /\
+  rrender f = [36; 123; 97; 125]%N /\ exists e, lossy_model (rrender f) = Err e.
+Print Assumptions C10_lossy_substvar_needed.
+
+(* History (audit A4): the lossy reader BEFORE proposed_fixes/C14-lossy-newlines.patch
+   (the RelLossy.oldnl_ definitions) rejected a line break in any whitespace slot inside a relation and a blank
+   after the ":" of a qualifier -- counterexamples to this clause on the code of that time, one
+   well-formed field per slot; the patched reader reads all twelve:
    "a\n:b" "a: b" "a\n(= 1)" "a (\n= 1)" "a (=\n1)" "a (= 1\n)" "a\n[b]" "a [\nb]" "a [b\n]" "a\n<b>" "a <\nb>" "a <b\n>" *)
-Definition C10_lossy_dom_witnesses : list rfield :=
+Definition lossy_model_old (s : str) : res (list (list relc)) :=
+  rmap (map (map relc_of_lossy)) (RelLossy.oldnl_relations_from_str RelLossy.dv_parse s).
+Definition C10_lossy_old_witnesses : list rfield :=
   let nl := [10%N] in let sp := [32%N] in let a := [97%N] in let b := [98%N] in let one := [49%N] in
   let mk q v ar ps := mk_rfield [] (IEntry (mk_rel a q v ar ps []) []) [] in
   let vc w0 w1 w2 w3 := Some (mk_vclause w0 w1 VEq w2 None one [] w3) in
@@ -203,52 +220,53 @@ Definition C10_lossy_dom_witnesses : list rfield :=
     mk None (vc sp [] sp nl) None [];
     mk None None (Some (gr nl [] [])) [];  mk None None (Some (gr sp nl [])) [];  mk None None (Some (gr sp [] nl)) [];
     mk None None None [gr nl [] []];  mk None None None [gr sp nl []];  mk None None None [gr sp [] nl] ].
-Theorem C10_lossy_dom_needed :
-  length C10_lossy_dom_witnesses = 12 /\
-  Forall (fun f => wf_rfield false f = true /\ lossy_dom f = false /\
-                   (exists e, lossy_model (rrender f) = Err e) /\
-                   relations_from_str (rrender f) = Ok (rtree_of f)) C10_lossy_dom_witnesses.
+Theorem C10_lossy_old_newline_refuted :
+  length C10_lossy_old_witnesses = 12 /\
+  Forall (fun f => wf_rfield false f = true /\
+                   (exists e, lossy_model_old (rrender f) = Err e) /\
+                   lossy_model (rrender f) = Ok (fst (rcontent_acc f))) C10_lossy_old_witnesses.
 Proof.
   split; [reflexivity|].
-  repeat (constructor; [split; [reflexivity|]; split; [reflexivity|]; split; [eexists; vm_compute; reflexivity|vm_compute; reflexivity]|]).
+  repeat (constructor; [split; [reflexivity|]; split; [eexists; vm_compute; reflexivity|vm_compute; reflexivity]|]).
   constructor.
 Qed.
-Check C10_lossy_dom_needed :
-  length C10_lossy_dom_witnesses = 12 /\
-  Forall (fun f => wf_rfield false f = true /\ lossy_dom f = false /\
-                   (exists e, lossy_model (rrender f) = Err e) /\
-                   relations_from_str (rrender f) = Ok (rtree_of f)) C10_lossy_dom_witnesses.
-Print Assumptions C10_lossy_dom_needed.
+Check C10_lossy_old_newline_refuted :
+  length C10_lossy_old_witnesses = 12 /\
+  Forall (fun f => wf_rfield false f = true /\
+                   (exists e, lossy_model_old (rrender f) = Err e) /\
+                   lossy_model (rrender f) = Ok (fst (rcontent_acc f))) C10_lossy_old_witnesses.
+Print Assumptions C10_lossy_old_newline_refuted.
 
 (* non-vacuity of the lossy clause: every optional part, odd whitespace (tabs, runs of blanks, LF
-   with indentation around "," and "|"), an epoch with further colons, negated terms:
-   "a (= 0:1)\n | b [!x y],\n"  and
-   "\n libc6 \t:any\t(  >=\t1:2.0~rc1-1:x )  [ amd64\t\ti386 ] <!nocheck>\t< cross  !nocheck >\t\n,\n  g++ (<< 4.9)\n |\n\tc,," *)
+   with indentation INSIDE relations as well as around "," and "|"), a blank after the ":" of a
+   qualifier, an epoch with further colons, negated terms:
+   "a\n (= 0:1)\n | b [!x\n y],\n"  and
+   "\n libc6 \t: any\t(  >=\n\t1:2.0~rc1-1:x )  [ amd64\t\ti386\n ] <!nocheck>\t<\ncross  !nocheck >\t\n,\n  g++ (<< 4.9)\n |\n\tc,," *)
 Definition C10_lossy_ex1 : rfield :=
-  mk_rfield [] (IEntry (mk_rel [97%N] None (Some (mk_vclause [32%N] [] VEq [32%N] (Some [48%N]) [49%N] [] [])) None [] [10; 32]%N)
-                       [([32%N], mk_rel [98%N] None None (Some (mk_group [32%N] [mk_term [] true [120%N]; mk_term [32%N] false [121%N]] [])) [] [])])
+  mk_rfield [] (IEntry (mk_rel [97%N] None (Some (mk_vclause [10; 32]%N [] VEq [32%N] (Some [48%N]) [49%N] [] [])) None [] [10; 32]%N)
+                       [([32%N], mk_rel [98%N] None None (Some (mk_group [32%N] [mk_term [] true [120%N]; mk_term [10; 32]%N false [121%N]] [])) [] [])])
             [([10%N], IEmpty)].
 Definition C10_lossy_ex2 : rfield :=
   let sp := [32%N] in let tb := [9%N] in
   let libc := [108; 105; 98; 99; 54]%N in let gpp := [103; 43; 43]%N in let any := [97; 110; 121]%N in
   let amd := [97; 109; 100; 54; 52]%N in let i386 := [105; 51; 56; 54]%N in
   let nocheck := [110; 111; 99; 104; 101; 99; 107]%N in let cross := [99; 114; 111; 115; 115]%N in
-  let r1 := mk_rel libc (Some (mk_qual [32; 9]%N [] any))
-                   (Some (mk_vclause tb [32; 32]%N VGe tb (Some [49%N]) [50; 46; 48; 126; 114; 99; 49; 45; 49]%N [[120%N]] sp))
-                   (Some (mk_group [32; 32]%N [mk_term sp false amd; mk_term [9; 9]%N false i386] sp))
-                   [mk_group sp [mk_term [] true nocheck] []; mk_group tb [mk_term sp false cross; mk_term [32; 32]%N true nocheck] sp] [9; 10]%N in
+  let r1 := mk_rel libc (Some (mk_qual [32; 9]%N sp any))
+                   (Some (mk_vclause tb [32; 32]%N VGe [10; 9]%N (Some [49%N]) [50; 46; 48; 126; 114; 99; 49; 45; 49]%N [[120%N]] sp))
+                   (Some (mk_group [32; 32]%N [mk_term sp false amd; mk_term [9; 9]%N false i386] [10; 32]%N))
+                   [mk_group sp [mk_term [] true nocheck] []; mk_group tb [mk_term [10%N] false cross; mk_term [32; 32]%N true nocheck] sp] [9; 10]%N in
   let r2 := mk_rel gpp None (Some (mk_vclause sp [] VLt sp None [52; 46; 57]%N [] [])) None [] [10; 32]%N in
   let r3 := mk_rel [99%N] None None None [] [] in
   mk_rfield [10; 32]%N (IEntry r1 []) [([10; 32; 32]%N, IEntry r2 [([10; 9]%N, r3)]); ([], IEmpty); ([], IEmpty)].
 Example C10_lossy_ex :
-  (wf_rfield false C10_lossy_ex1 = true /\ lossy_dom C10_lossy_ex1 = true /\
+  (wf_rfield false C10_lossy_ex1 = true /\
    exists es, lossy_model (rrender C10_lossy_ex1) = Ok es /\ map (map relc_view) es = fst (rcontent C10_lossy_ex1)) /\
-  (wf_rfield false C10_lossy_ex2 = true /\ lossy_dom C10_lossy_ex2 = true /\
+  (wf_rfield false C10_lossy_ex2 = true /\
    exists es, lossy_model (rrender C10_lossy_ex2) = Ok es /\ map (map relc_view) es = fst (rcontent C10_lossy_ex2) /\
               map (map c_name) es = [[[108; 105; 98; 99; 54]]; [[103; 43; 43]; [99]]]%N).
 Proof.
-  split; [split; [reflexivity|]; split; [reflexivity|]; eexists; split; vm_compute; reflexivity|].
-  split; [reflexivity|]. split; [reflexivity|]. eexists. split; [vm_compute; reflexivity|]. split; vm_compute; reflexivity.
+  split; [split; [reflexivity|]; eexists; split; vm_compute; reflexivity|].
+  split; [reflexivity|]. eexists. split; [vm_compute; reflexivity|]. split; vm_compute; reflexivity.
 Qed.
 
 (* 9. THE IMAGE OF THE READER.  The fields of sections 1-8 are the Policy grammar; the reader accepts
